@@ -12,6 +12,8 @@ from .common import dispatch_ops, generic_class, op_table, table_stats, trace_st
 
 MUT_METHODS = {"append", "add", "update", "extend", "insert", "setdefault", "pop", "remove", "clear", "appendleft", "discard", "popitem"}
 
+from .C17 import clone_def
+
 
 def check(repo: Repo, rep, tier):
     rep.not_decided = "run-time uniqueness of id(code): it rests on executing keeping the code object alive (A2)"
@@ -21,6 +23,7 @@ def check(repo: Repo, rep, tier):
     accumulate(repo, rep)
     reeval_raises(repo, rep)
     reeval_fresh(repo, rep)
+    clone_def(repo, rep)
 
 
 def wrapper_frames(repo: Repo, f: Func):
